@@ -137,6 +137,35 @@ def _ways():
     def via_str(s):
         return str(Tag("div", title=s)), ["title"]
 
+    def on_script_tag(s):
+        return g(Tag("script", src=s)), ["src"]
+
+    def on_style_tag(s):
+        return g(Tag("style", "p{}", {"media": s})), ["media"]
+
+    def on_script_add_class(s):
+        return g(Tag("script", "x").add_class(s)), ["class"]
+
+    def after_same_string_as_text(s):
+        # history: the same string was escaped as a text child first
+        Tag("p", s, Tag("b")).get_html_string()
+        Tag("p", s).get_html_string()
+        return g(Tag("div", title=s)), ["title"]
+
+    def after_same_string_in_html_merge(s):
+        Tag("div", {"class": HTML("h")}, class_=s).get_html_string()
+        return g(Tag("div", {"title": s})), ["title"]
+
+    def rendered_twice(s):
+        t = Tag("div", title=s)
+        g(t)
+        return g(t), ["title"]
+
+    def renamed_from_script(s):
+        t = Tag("script", data_x=s)
+        t.name = "div"
+        return g(t), ["data-x"]
+
     def indented(s):
         return Tag("div", Tag("p", "x", title=s)).get_html_string(1, "\r\n"), ["title"]
 
@@ -145,11 +174,14 @@ def _ways():
           merge_html_p, merge_p_num, merge_three, merge_three_mid, merge_update,
           add_class_append, add_class_prepend, add_class_fresh, add_class_onto_html,
           add_class_prepend_html, add_html_class_onto_plain, add_style, add_style_onto_html,
-          add_style_prepend, add_html_style_onto_plain, via_str, indented)
+          add_style_prepend, add_html_style_onto_plain, via_str, indented, on_script_tag,
+          on_style_tag, on_script_add_class, after_same_string_as_text,
+          after_same_string_in_html_merge, rendered_twice, renamed_from_script)
     return {f.__name__: f for f in fs}
 
 
-CORE = ("kw", "merge_p_html", "merge_html_p", "add_class_onto_html", "add_html_style_onto_plain")
+CORE = ("kw", "merge_p_html", "merge_html_p", "add_class_onto_html", "add_html_style_onto_plain",
+        "on_script_tag", "after_same_string_as_text")
 _CACHE = {}
 
 
